@@ -14,6 +14,9 @@ Three kinds of cases, all driven through the real code:
   prod(mp_grid), every grid cell of every pair receives total weight 1, every replica is congruent
   to its cell; (d) the replicas chosen are the exact minimal images (independent search through the
   rational Gram matrix, ties decided with Fractions) with equal weights 1/multiplicity.
+  Centre patterns include centres outside the home cell, coinciding, nearly coinciding (4e-5) and many cells apart
+  ("far": 6.6 / 9.7 cells, beyond the code's search window of 3 supercells on small meshes); k-point representations
+  include k+G and coordinates off by 1e-10 ("noisy", file precision).
 * kind "wsdist": System_R.do_ws_dist on zoo systems (Ham, AA, GG): H(q), AA(q), GG(q) on the mesh are
   unchanged, X(-R)=X(R)^dagger afterwards.
 * kind "w90": get_system_w90 on a synthetic WannierData (CheckPoint + EIG; v_matrix = eigenvectors of
@@ -419,7 +422,6 @@ def pair_summary(lat, mp, tau):
 # --------------------------------------------------------------------------------------------------
 def run_wsdist(case, seed):
     from wbmc import zoo
-    from wbmc.oracles_ws import frac, exact_ws
     lat, mp, cen, rs, tol = case["lat"], tuple(case["mp"]), case["cen"], case["rs"], case["tol"]
     nw = NW
     tau = centres(cen, nw)
@@ -459,7 +461,7 @@ def run_wsdist(case, seed):
 # --------------------------------------------------------------------------------------------------
 def run_w90(case, seed):
     from wbmc import zoo
-    from wbmc.oracles_ws import frac, exact_ws
+    from wbmc.oracles_ws import frac
     from wannierberri.w90files.chk import CheckPoint
     from wannierberri.w90files.eig import EIG
     from wannierberri.w90files.wandata import WannierData
@@ -546,6 +548,7 @@ def finish(tier, cases, results):
     for c in cases:
         kinds[c["kind"]] = kinds.get(c["kind"], 0) + 1
     nconf = sum(int((r.get("obs") or {}).get("configs", 0)) for r in results)
-    return {"axes": {"lattices": len(LATS), "meshes": len(MESHES), "centre_patterns": len(CENS), "ws_tolerances": len(TOLS),
+    return {"axes": {"lattices": len({c["lat"] for c in cases}), "meshes": len({tuple(c["mp"]) for c in cases}),
+                     "centre_patterns": len({c["cen"] for c in cases}), "ws_tolerances": len(TOLS),
                      "fftlib": len(FFTLIBS), "k_representations": len(MODES)},
             "cases_by_kind": kinds, "rvec_q_to_R_configurations": nconf}
